@@ -29,18 +29,20 @@ TplOf(name) ==
 
 \* ---- argument classes ---------------------------------------------------------
 AllOps == {"AddImage", "AddResource", "AddTable", "AddCellImage", "BadCell", "AddPlaceholder", "AddCellPlaceholder",
-           "Render", "RenderString", "RemovePic", "Other", "Info", "Save", "Reopen", "OpenForeign"}
+           "Render", "RenderString", "RemovePic", "Other", "Info", "Save", "Reopen", "OpenForeign", "WriteFile", "RemoveFile"}
 AllNames == {"png", "jpg", "jpeg", "PNG", "gif", "noext", "dot", "multi", "cjk", "space", "meta",
              "internal0", "internal1", "dotdot", "empty"}
 AllCells == {<<r, c>> : r \in 0..(TblRows - 1), c \in 0..(TblCols - 1)}
 Q == Tier = "quick"
-Small == [ops |-> AllOps, dq |-> 2, dt |-> 2,
+\* pre = operations every behaviour of the plan starts with (its start state); Paths = the path slots of the caller's
+\* files (WriteFile / RemoveFile act on them, PathVias / PathCellVias = the calls that add a picture from them)
+Small == [ops |-> AllOps, pre |-> <<>>, dq |-> 2, dt |-> 2,
           Toks |-> {"P1", "J2"}, NameCls |-> {"png"}, SizeNs |-> {"nil", "wkeep"}, Vias |-> {"data"},
-          CellVias |-> {"cfg-data"}, Cells |-> AllCells, Poss |-> {"inline"}, Slots |-> {1}, Lays |-> {"alone"}, DataNs |-> {"d1"},
+          CellVias |-> {"cfg-data"}, Cells |-> AllCells, Paths |-> {}, PathVias |-> {"file"}, PathCellVias |-> {"file"}, Poss |-> {"inline"}, Slots |-> {1}, Lays |-> {"alone"}, DataNs |-> {"d1"},
           StrTpls |-> {"two"}, RenderHows |-> {"engine"}, Keeps |-> {FALSE}, Shapes |-> {"gap"},
           Others |-> {"AddHeader"}, InfoNs |-> {"ResizeImage"}, Hs |-> {"last"}, ReopenHows |-> {"mem"}, MaxTbl |-> 1]
 Wide == [Small EXCEPT
-          !.Toks = TokNames, !.NameCls = AllNames, !.SizeNs = SizeNames, !.Vias = {"data", "file"},
+          !.Toks = LenAtMost(2^20 + 1), !.Paths = PathSlots, !.PathCellVias = {"cfg-file", "file"}, !.NameCls = AllNames, !.SizeNs = SizeNames, !.Vias = {"data", "file"},
           !.CellVias = {"cfg-data", "cfg-file", "data", "file"}, !.Poss = {"inline", "floatLeft", "floatRight"},
           !.Slots = {1, 2}, !.Lays = {"alone", "around"}, !.DataNs = {"d1", "d2", "d3", "d4"},
           !.StrTpls = {"two", "same", "rev", "one"}, !.RenderHows = {"engine", "renderer"}, !.Keeps = {FALSE, TRUE},
@@ -96,6 +98,25 @@ PlanOf(name) ==
          [Small EXCEPT !.ops = {"AddImage", "AddTable", "AddCellImage", "AddPlaceholder", "Render", "Reopen"},
                        !.Toks = IF Q THEN {"P1", "P1b"} ELSE {"P1", "P1b", "J2", "J2b", "G1", "G1b"}, !.SizeNs = {"nil"},
                        !.Cells = {<<0, 1>>}, !.Slots = {1, 2}, !.DataNs = {"d5"}, !.dq = 3, !.dt = 3]
+    [] name = "files" ->        \* the caller's files: a path is written, added from (body and cell), rewritten with other bytes of the
+                                \* same format, pixel size and length (or of another format), removed, added from again
+         [Small EXCEPT !.ops = IF Q THEN {"WriteFile", "AddImage", "AddCellImage"}
+                                ELSE {"WriteFile", "RemoveFile", "AddImage", "AddCellImage", "Reopen"},
+                       !.pre = <<[op |-> "AddTable"]>>, !.Toks = IF Q THEN {"P1", "P1b"} ELSE {"P1", "P1b", "J2"},
+                       !.Vias = {}, !.CellVias = {}, !.SizeNs = IF Q THEN {"nil"} ELSE {"wkeep"}, !.Cells = {<<0, 0>>},
+                       !.Paths = {"pa"}, !.PathCellVias = IF Q THEN {"file"} ELSE {"cfg-file", "file"}, !.dq = 5, !.dt = 5]
+    [] name = "bulk" ->         \* images of every encoded length class (64 KiB ... 32 MiB), through save and reopen and in a foreign package
+         [Small EXCEPT !.ops = {"AddImage", "AddCellImage", "Reopen", "OpenForeign"}, !.pre = <<[op |-> "AddTable"]>>,
+                       !.Toks = {i.t : i \in LargeImages}, !.SizeNs = {"wkeep"},
+                       !.Vias = {"data", "file"}, !.CellVias = {"cfg-file"}, !.Cells = {<<1, 0>>}, !.ReopenHows = {"mem", "file"},
+                       !.Shapes = LargeShapeNames, !.dq = 0, !.dt = 3]
+    [] name \in {"bulk0", "bulk1", "bulk2"} ->      \* the quick tier's share of it (the driver takes one per seed): the rung
+                                \* above 16 MiB always, the lower rungs and the ways in and out in turn
+         LET k == CHOOSE x \in 0..2 : name = "bulk" \o ToString(x)
+         IN [Small EXCEPT !.ops = {"AddImage", "Reopen", "OpenForeign"},
+                          !.Toks = {"L24", <<"L16", "L20", "L22">>[k + 1]}, !.SizeNs = {"wkeep"},
+                          !.Vias = {<<"data", "file", "data">>[k + 1]}, !.ReopenHows = {<<"file", "mem", "mem">>[k + 1]},
+                          !.Shapes = LargeShapeNames, !.dq = 2, !.dt = 0]
     [] name = "setters" ->      \* the setters on ImageInfo handles and failing cell calls change nothing
          [Small EXCEPT !.ops = {"AddImage", "AddTable", "AddCellImage", "BadCell", "Info", "Save", "Reopen"}, !.Toks = {"P1"},
                        !.SizeNs = {"wh"}, !.Cells = {<<0, 0>>}, !.InfoNs = IF Q THEN {"ResizeImage", "SetImageAlignment", "SetImagePosition"} ELSE InfoOps,
@@ -106,6 +127,7 @@ PlanOf(name) ==
                        !.dq = 0, !.dt = 3]
     [] name = "mc" ->           \* the exhaustive check of the reference machine
          [Small EXCEPT !.CellVias = {"cfg-data", "data"}, !.Slots = {1, 2}, !.DataNs = {"d1", "d2"}, !.Keeps = {FALSE, TRUE},
+                       !.Paths = {"pa"},
                        !.Shapes = IF Q THEN {"gap", "upper", "noext"} ELSE ShapeNames,
                        !.Others = {"AddHeader", "AddParagraph"}, !.Hs = {"nil", "last"}]
     [] OTHER -> Wide            \* "wide": every class (random walks)
@@ -116,6 +138,10 @@ DepthOf(name) == IF Mode = "sim" THEN MaxSteps
 \* so that a step has one successor per call form instead of one per argument combination
 Cls(s, S) == IF Mode = "sim" /\ S # {} THEN {RandomElement(IF Len(s.body) >= 0 THEN S ELSE {})} ELSE S
 
+\* what the op record of an addition from a file shows as its image: the file's content now (Pics!Given decides)
+NoImg == ImgL("-", "png", 0, 0, 0)
+FileImg(s, f) == IF HasFile(s, f) THEN ImgOf(FileTok(s, f)) ELSE NoImg
+
 TblRange(s, g) == 1..(IF NTables(s) < g.MaxTbl THEN NTables(s) ELSE g.MaxTbl)
 
 OpsOf(s, g) ==
@@ -123,22 +149,31 @@ OpsOf(s, g) ==
       Toks == Cls(s, g.Toks)   Names == Cls(s, g.NameCls)   Szs == Cls(s, g.SizeNs)
       CSzs == Cls(s, g.SizeNs \ {"nil", "nosize"})
       VSzs == Cls(s, (g.SizeNs \cap ConvSizeNames) \cup {"zerokeep"})
-      Tbls == Cls(s, TblRange(s, g))   Cells == Cls(s, g.Cells)
+      Tbls == Cls(s, TblRange(s, g))   Cells == Cls(s, g.Cells)   Paths == Cls(s, g.Paths)
   IN
-     (IF On("AddImage") THEN {[op |-> "AddImage", via |-> v, img |-> ImgOf(t), name |-> nm, sz |-> SzOf(z), pos |-> p]
-                               : v \in Cls(s, g.Vias), t \in Toks, nm \in Names, z \in Szs, p \in Cls(s, g.Poss)} ELSE {})
+     (IF On("AddImage") THEN {[op |-> "AddImage", via |-> v, img |-> ImgOf(t), name |-> nm, sz |-> SzOf(z), pos |-> p, path |-> ""]
+                               : v \in Cls(s, g.Vias), t \in Toks, nm \in Names, z \in Szs, p \in Cls(s, g.Poss)}
+                         \cup {[op |-> "AddImage", via |-> "file", img |-> FileImg(s, f), name |-> "slot", sz |-> SzOf(z), pos |-> p, path |-> f]
+                               : f \in Paths, z \in Szs, p \in Cls(s, g.Poss)} ELSE {})
+  \cup (IF On("WriteFile") THEN {[op |-> "WriteFile", path |-> f, img |-> ImgOf(t)] : f \in Paths, t \in Toks} ELSE {})
+  \cup (IF On("RemoveFile") THEN {[op |-> "RemoveFile", path |-> f] : f \in {x \in Paths : HasFile(s, x)}} ELSE {})
   \cup (IF On("AddResource") THEN {[op |-> "AddResource", img |-> ImgOf(t), name |-> nm] : t \in Toks, nm \in Names} ELSE {})
   \cup (IF On("AddTable") /\ NTables(s) < g.MaxTbl THEN {[op |-> "AddTable"]} ELSE {})
   \cup (IF On("AddCellImage")
-        THEN {[op |-> "AddCellImage", via |-> v, tbl |-> tb, r |-> rc[1], c |-> rc[2], img |-> ImgOf(t), sz |-> SzOf(z), fmt |-> ""]
+        THEN {[op |-> "AddCellImage", via |-> v, tbl |-> tb, r |-> rc[1], c |-> rc[2], img |-> ImgOf(t), sz |-> SzOf(z), fmt |-> "", path |-> ""]
                : v \in Cls(s, g.CellVias \cap {"cfg-data", "cfg-file"}), tb \in Tbls, rc \in Cells, t \in Toks, z \in CSzs}
-          \cup {[op |-> "AddCellImage", via |-> "cfg-data", tbl |-> tb, r |-> 0, c |-> 0, img |-> ImgOf(t), sz |-> SzOf(z), fmt |-> ImgOf(t).f]
+          \cup {[op |-> "AddCellImage", via |-> "cfg-data", tbl |-> tb, r |-> 0, c |-> 0, img |-> ImgOf(t), sz |-> SzOf(z), fmt |-> ImgOf(t).f, path |-> ""]
                : tb \in Tbls \cap (IF "cfg-data" \in g.CellVias THEN {1} ELSE {}), t \in Toks, z \in CSzs}
-          \cup {[op |-> "AddCellImage", via |-> v, tbl |-> tb, r |-> rc[1], c |-> rc[2], img |-> ImgOf(t), sz |-> SzOf(z), fmt |-> ""]
+          \cup {[op |-> "AddCellImage", via |-> v, tbl |-> tb, r |-> rc[1], c |-> rc[2], img |-> ImgOf(t), sz |-> SzOf(z), fmt |-> "", path |-> ""]
                : v \in Cls(s, g.CellVias \cap {"data", "file"}), tb \in Tbls, rc \in Cells, t \in Toks, z \in VSzs}
+          \* ... from one of the caller's files
+          \cup {[op |-> "AddCellImage", via |-> "cfg-file", tbl |-> tb, r |-> rc[1], c |-> rc[2], img |-> FileImg(s, f), sz |-> SzOf(z), fmt |-> "", path |-> f]
+               : tb \in Tbls, rc \in Cells, f \in Paths \cap (IF "cfg-file" \in g.PathCellVias THEN PathSlots ELSE {}), z \in CSzs}
+          \cup {[op |-> "AddCellImage", via |-> "file", tbl |-> tb, r |-> rc[1], c |-> rc[2], img |-> FileImg(s, f), sz |-> SzOf(z), fmt |-> "", path |-> f]
+               : tb \in Tbls, rc \in Cells, f \in Paths \cap (IF "file" \in g.PathCellVias THEN PathSlots ELSE {}), z \in VSzs}
         ELSE {})
   \cup (IF On("BadCell")
-        THEN {[op |-> "AddCellImage", via |-> "cfg-data", tbl |-> a[1], r |-> a[2], c |-> a[3], img |-> ImgOf(t), sz |-> SzOf("wh"), fmt |-> a[4]]
+        THEN {[op |-> "AddCellImage", via |-> "cfg-data", tbl |-> a[1], r |-> a[2], c |-> a[3], img |-> ImgOf(t), sz |-> SzOf("wh"), fmt |-> a[4], path |-> ""]
                : a \in Cls(s, {<<0, 0, 0, "">>, <<1, 2, 0, "">>, <<1, 0, 2, "">>, <<1, 0, 0, "bad">>}), t \in Toks}
         ELSE {})
   \cup (IF On("AddPlaceholder") THEN {[op |-> "AddPlaceholder", slot |-> k, lay |-> l] : k \in Cls(s, g.Slots), l \in Cls(s, g.Lays)} ELSE {})
@@ -160,7 +195,10 @@ OpsOf(s, g) ==
 Ops == OpsOf(st, PlanOf(plan))
 
 NoOp == [op |-> "none"]
-Init == st = InitSt /\ hist = <<>> /\ n = 0 /\ plan \in {p \in Plans : Mode # "bfs" \/ DepthOf(p) > 0} /\ last = NoOp
+RECURSIVE ApplyAll(_, _, _)
+ApplyAll(s, q, i) == IF i > Len(q) THEN s ELSE ApplyAll(Apply(s, q[i]), q, i + 1)
+Init == /\ plan \in {p \in Plans : Mode # "bfs" \/ DepthOf(p) > 0}
+        /\ hist = PlanOf(plan).pre /\ st = ApplyAll(InitSt, PlanOf(plan).pre, 1) /\ n = 0 /\ last = NoOp
 
 NextMC == /\ n < MaxSteps
           /\ \E op \in Ops : st' = Apply(st, op) /\ last' = op
@@ -182,6 +220,7 @@ SpecGen == Init /\ [][NextGen]_vars
 Inv_RelIds  == RelIdsUnique(st)
 Inv_Media   == MediaFunctional(st)
 Inv_Resolve == AllResolve(st)
+Inv_Files   == FilesFunctional(st)
 
 PV(s) == PicsOnly(View(s))
 ToksOf(v) == [i \in 1..Len(v) |-> v[i].tok]
@@ -199,8 +238,9 @@ Act_New ==
   [][LET op == last' IN
         (Guard(st, op) /\ op.op \in {"AddImage", "AddCellImage"})
            => LET p == IF op.op = "AddImage" THEN PV(st')[Len(PV(st'))] ELSE LastOfCell(st', op)
-                  e == Extent(op.sz, op.img.pw, op.img.ph)
-              IN /\ p.tok = op.img.t /\ p.cx = e.cx /\ p.cy = e.cy
+                  g == Given(st, op)      \* for an addition from a file: what the file holds when the call is made
+                  e == Extent(op.sz, g.pw, g.ph)
+              IN /\ p.tok = g.t /\ p.cx = e.cx /\ p.cy = e.cy
                  /\ (op.op = "AddImage" => p.w = "body")]_vars
 \* rendering turns each placeholder with data into a picture of that data, in place
 WantRender(V, data) ==
@@ -218,7 +258,10 @@ Act_MediaKept ==
 \* a failing call and the calls on ImageInfo handles leave the document as it is
 Act_Unchanged ==
   [][LET op == last' IN
-        (~Guard(st, op) \/ op.op \in InfoOps \cup {"Save"}) => Core(View(st')) = Core(View(st)) /\ st'.media = st.media]_vars
+        (~Guard(st, op) \/ op.op \in InfoOps \cup EnvOps \cup {"Save"}) => Core(View(st')) = Core(View(st)) /\ st'.media = st.media]_vars
+\* only the caller changes the caller's files
+Act_FilesKept ==
+  [][LET op == last' IN op.op \notin EnvOps => st'.files = st.files]_vars
 
 \* ---- generation: print each complete behaviour once ----------------------
 Emit == n = 0 \/ PrintT(<<"WZCASE", ToJson(hist)>>)
